@@ -102,6 +102,18 @@ PROPS = {
              'case_scale': {'B_SGal3_SE2_SE23_SO3_R1_d': 0.3}},
         ],
     },
+    'C12': {
+        'rule': 'one of 26 (operation or ceres-style functor, differentiated argument) pairs over the dual scalar vf::Dual<DoF> on generated inputs (strata of 1.3 incl. the small-angle region and theta = 0); float configurations: every operation on identical float inputs in float and double; non-trivial: rotation != 0 and >= DoF non-zero dual entries',
+        'assumptions': ['vf::Dual<N> (engine/vf_dual.h) is an independent implementation of the ceres::Jet pattern; ceres / autodiff themselves are not installed',
+                        'the analytic Jacobians used as reference are those of the double instantiation, themselves checked against finite differences of the model by C05',
+                        'logarithm-type operations restricted to relative rotation <= pi - 1e-6; the objective functor is excluded at target == state (norm not differentiable)'],
+        'stages': [
+            {'src': 'C12.cpp', 'configs': ['SO2j', 'SE2j', 'SO3j', 'SE3j', 'SE_2_3j', 'SGal3j', 'R3j', 'B_SE3_SO2_R3_j'],
+             'cases': {'quick': 3000, 'thorough': 150000}, 'shards': {'quick': 1, 'thorough': 2}, 'case_scale': {'SGal3j': 0.5, 'B_SE3_SO2_R3_j': 0.5}},
+            {'src': 'C12.cpp', 'configs': F_GROUPS + ['SGal3f', 'B_SE3_SO2_R3_f'], 'tag': '-float',
+             'cases': {'quick': 3000, 'thorough': 150000}, 'shards': {'quick': 1, 'thorough': 2}},
+        ],
+    },
     'C13': {
         'rule': 'constructor arguments: angles over +-20 pi incl. multiples of pi/2 and near-pi values, forced gimbal pitch, quaternions of both hemispheres (element strata of 1.3), translations/velocities/time 0..1e6, norm deviation delta/eps in {0,.1,.5,.9,1.1,2,10,1e3,1e12} x sign; non-trivial: angle outside the principal range, gimbal, w<0, or delta within a factor 2 of eps',
         'assumptions': ['reference rotations (Rz Ry Rx, Rodrigues via the reference exponential) in long double', 'two builds: assertions enabled and -DNDEBUG'],
